@@ -122,13 +122,18 @@ func (w *c16World) line(c *Ctx, in string) {
 	T := packager.Type
 	switch parts[0] {
 	case "reset":
-		var ls []string
-		for _, l := range w.ts.Listeners {
-			ls = append(ls, l.Name)
-		}
-		for _, l := range ls {
-			w.ts.ListenerRemove(l)
-		}
+		// the server may still be working on the last operator message: touch its tables only when it is quiet
+		w.quiesce()
+		guard(func() string {
+			var ls []string
+			for _, l := range w.ts.Listeners {
+				ls = append(ls, l.Name)
+			}
+			for _, l := range ls {
+				w.ts.ListenerRemove(l)
+			}
+			return ""
+		})
 		for _, n := range w.ts.DB.ListenerNames() {
 			w.ts.DB.ListenerRemove(n)
 		}
